@@ -1402,6 +1402,9 @@ func c05mikey(cls, salt int) *mikey.Message {
 	if cls%2 == 1 {
 		kd.KV = mikey.SubPayloadKeyDataKVSPI
 		kd.SPI = []byte{1, 2, 3, byte(salt)}
+		if cls == 3 {
+			kd.SPI = []byte{} // key validity by SPI with an SPI of length 0 (the parser accepts it)
+		}
 	}
 	return &mikey.Message{
 		Header: mikey.Header{
